@@ -199,6 +199,12 @@ MUTATIONS += [
     dict(id="C04-findkey-returns-other-id", prop="C04", file=KFILE, old="                Ok(key) => return Ok((key, KeyId(id))),", new="                Ok(key) => return Ok((key, KeyId(Id::default()))),"),
 ]
 
+# ---- C07 Packer::add_raw
+MUTATIONS += [
+    dict(id="C07-packer-addraw-untyped", prop="C07", file=PK, old="        if self.indexer.read().unwrap().has(self.blob_type, id) {\n            Ok(())", new="        if self.indexer.read().unwrap().has(BlobType::Data, id) {\n            Ok(())"),
+    dict(id="C07-packer-addraw-inverted", prop="C07", file=PK, old="        if self.indexer.read().unwrap().has(self.blob_type, id) {\n            Ok(())", new="        if !self.indexer.read().unwrap().has(self.blob_type, id) {\n            Ok(())"),
+]
+
 HARMLESS = [
     dict(id="H-C05-trees-symlink-continue", prop="C05", file=CK, old="        for node in tree.nodes {\n            match node.node_type {", new="        for node in tree.nodes {\n            if node.node_type == NodeType::Symlink {\n                continue;\n            }\n            match node.node_type {"),
 ]
